@@ -253,6 +253,21 @@ def route_msg(event, p, h, i):
             "header": {"length": 68, "type": 24, "target": "localhost"}}
 
 
+V6_GW = "fe80::1"
+
+
+def v6_route_msg(event, i):
+    """the IPv6 default route of a managed interface (dst_len 0, no RTA_DST): another address family, nothing for the controller"""
+    return {"family": 10, "dst_len": 0, "flags": 0, "event": event,
+            "attrs": [("RTA_TABLE", 254), ("RTA_PRIORITY", 1024), ("RTA_GATEWAY", V6_GW), ("RTA_OIF", IFINDEX[IFACES[i]])],
+            "header": {"length": 68, "type": 24, "target": "localhost"}}
+
+
+def v6_neigh_msg():
+    return {"family": 10, "ifindex": 0, "state": 2, "event": "RTM_NEWNEIGH",
+            "attrs": [("NDA_DST", V6_GW), ("NDA_LLADDR", "02:00:00:00:06:01")]}
+
+
 def neigh_msg(h, mac):
     return {"family": 2, "ifindex": 0, "state": 2, "event": "RTM_NEWNEIGH",
             "attrs": [("NDA_DST", NEXTHOPS[h]), ("NDA_LLADDR", mac)]}
@@ -269,9 +284,23 @@ class World:
         bc = rc.BessController("localhost", "10514")     # real class; connects to FakeBESS()
         self.bess = FakeBESS.current
         self.ctl = rc.RouteController(bess_controller=bc, ndb=self.ndb, ipr=None, interfaces=list(IFACES))
+        self.noise = False
+        self.nstep = 0
 
     def apply(self, ev):
         before = self.bess.rejected
+        if self.noise:
+            # what a dual-stack host delivers in between: the IPv6 default route of the interface comes, its gateway resolves …
+            self.ctl._netlink_route_handler(None, v6_route_msg("RTM_NEWROUTE", self.nstep % len(IFACES)))
+            self.ctl._netlink_neighbor_handler(None, v6_neigh_msg())
+        self._apply(ev)
+        if self.noise:
+            # … and goes again
+            self.ctl._netlink_route_handler(None, v6_route_msg("RTM_DELROUTE", self.nstep % len(IFACES)))
+            self.nstep += 1
+        return self.bess.rejected - before
+
+    def _apply(self, ev):
         if ev[0] == "N":
             self.ctl._netlink_route_handler(None, route_msg("RTM_NEWROUTE", ev[1], ev[2], ev[3]))
         elif ev[0] == "D":
@@ -281,7 +310,6 @@ class World:
         else:
             self.ndb.learn(ev[1])       # the kernel's neighbour table has the entry when the event is delivered
             self.ctl._netlink_neighbor_handler(None, neigh_msg(ev[1], MACS[self.macs[ev[1]]]))
-        return self.bess.rejected - before
 
     def graph(self, nerr):
         b = self.bess
@@ -350,8 +378,9 @@ def kernel_after(kernel, ev):
     return k
 
 
-def run_sequence(rc, ifmap, known0, macs, evs):
+def run_sequence(rc, ifmap, known0, macs, evs, noise=False):
     w = World(rc, [h for h in range(len(NEXTHOPS)) if known0[h]], ifmap, macs)
+    w.noise = noise
     parts = ["seq " + " ".join(map(str, ifmap)) + " " + " ".join(str(int(b)) for b in known0)
              + " " + " ".join(map(str, macs))]
     for ev in evs:
@@ -438,7 +467,8 @@ def do_chunk(task):
     lines, hist, hashes, nontriv, samples = [], {}, [], [], []
     steps = 0
     for ifmap, known0, macs, evs in items:
-        line = run_sequence(RC, ifmap, known0, macs, evs)
+        # sequences of the random and scripted families are interleaved with IPv6 events (another family: no effect on the graph)
+        line = run_sequence(RC, ifmap, known0, macs, evs, noise=not family.startswith("exhaustive"))
         lines.append(line)
         steps += len(evs)
         cls = classify(evs, ifmap) or {"no-route-installed-or-waiting"}
